@@ -75,7 +75,10 @@ def _probe(ctx, cls, text, mode):
     from moclo import errors
 
     ctx.count("evaluations")
-    ent = cls(CircularRecord(Seq(text), "probe"))
+    # the topology annotation in every spelling the library accepts (it lower-cases before comparing), or none
+    topo = [None, "circular", "Circular", None, "CIRCULAR"][(len(text) + ord(text[0])) % 5]
+    ent = cls(CircularRecord(Seq(text), "probe", annotations={"topology": topo} if topo else None))
+    ctx.hist("probe_topology_annotation", str(topo))
     before = ctx.counters["c04_entities_judged"]
     try:
         first = ent.is_valid()
